@@ -90,7 +90,15 @@ def _backoff_budget(relpath, node, depth=0):
         try:
             base = source.module_assign(relpath, node.func.id)
         except source.SelectorError:
-            return None
+            # a factory written as a module-level function whose body is `return <call>`
+            try:
+                fn = source.select(relpath, node.func.id)
+            except source.SelectorError:
+                return None
+            rets = [n.value for n in ast.walk(fn) if isinstance(n, ast.Return) and n.value is not None] if isinstance(fn, ast.FunctionDef) else []
+            if len(rets) != 1:
+                return None
+            base = rets[0]
         r = _backoff_budget(relpath, base, depth + 1)
         if r is None:
             return None
@@ -278,7 +286,7 @@ def requires_auth_units(prop):
 # ------------------------------------------------------------------ the give-up predicates of the retry decorators
 def _giveup_name(relpath, deco):
     node = source.module_assign(relpath, deco)
-    for _ in range(3):
+    for _ in range(4):
         if isinstance(node, ast.Call):
             for k in node.keywords:
                 if k.arg == 'giveup' and isinstance(k.value, ast.Name):
@@ -288,7 +296,15 @@ def _giveup_name(relpath, deco):
                     node = source.module_assign(relpath, node.func.id)
                     continue
                 except source.SelectorError:
-                    return None
+                    try:
+                        fn = source.select(relpath, node.func.id)
+                    except source.SelectorError:
+                        return None
+                    rets = [n.value for n in ast.walk(fn) if isinstance(n, ast.Return) and n.value is not None] if isinstance(fn, ast.FunctionDef) else []
+                    if len(rets) != 1:
+                        return None
+                    node = rets[0]
+                    continue
         break
     return None
 
@@ -303,9 +319,11 @@ def giveup_setup(kind):
         if kind == 'status':
             resp = Obj('response', status_code=code)
             resp._lenient = True
-            b.bind('e', Exc('HTTPStatusError', attrs={'response': resp}))
+            exc = Exc('HTTPStatusError', attrs={'response': resp})
         else:
-            b.bind('e', Exc('ConnectError'))
+            exc = Exc('ConnectError')
+        params = [a.arg for a in b.node.args.posonlyargs + b.node.args.args]
+        b.bind(params[0] if params else 'e', exc)       # the predicate's only parameter, whatever it is called
         b.bind('httpx', Obj('httpx', HTTPStatusError=shared.ExcClass('HTTPStatusError'), HTTPError=shared.ExcClass('HTTPError'),
                             codes=Obj('codes', FORBIDDEN=403, NOT_FOUND=404, UNAUTHORIZED=401, TOO_MANY_REQUESTS=429, BAD_REQUEST=400)))
     return setup
